@@ -422,9 +422,6 @@ def run_case(case):
     import os
     import time
     t0 = time.time()
-    if os.environ.get('VERIF_TBDIR'):
-        import faulthandler
-        faulthandler.dump_traceback_later(100, file=open(os.path.join(os.environ['VERIF_TBDIR'], f'tb-{os.getpid()}'), 'w'))
     from mc import env
     env.tidalpy()
     kind = case['kind']
@@ -441,11 +438,12 @@ def replay(case):
 def run(ctx):
     import os
     from mc.core import HarnessError, run_lattice
-    from mc.refmodels import kaula
+    from mc.refmodels import kaula, poolwatch
     try:
         kaula.selfcheck()
     except AssertionError as e:
         raise HarnessError(f'Kaula reference failed its self-check: {e}')
+    watch = poolwatch.start(ctx)
     shift = SHIFTS[ctx.seed % len(SHIFTS)]
     obl = list(OBLIQ_MENU[ctx.seed % len(OBLIQ_MENU)])
     # two phases: per-l tables first (compiled once, cached on disk by numba), then the lookups that call them
@@ -462,6 +460,7 @@ def run(ctx):
                        exhaustive=True)
     res2 = run_lattice(ctx, 'mc.props.C09:run_case', cases2, chunk=1,
                        rule='lookup[on/off][max_l] (compiled) vs per-l tables, key by key', exhaustive=True)
+    watch.set()
     cases, res = cases1 + cases2, res1 + res2
     if os.environ.get('VERIF_TIMING'):
         for c, r in sorted(zip(cases, res), key=lambda cr: -cr[1]['t'])[:12]:
